@@ -559,6 +559,11 @@ class Model:
 
         # ---------------- version query (C06) ----------------
         self._check_query(fields, obs, d, version_before, made_version_known, query=query)
+        if any(not ok for _f, ok, _w in query):
+            # the query goes out after the message was handled; when ITS write fails, that failure is what the caller
+            # sees, whatever the handling itself had ended with (everything else of the step is still judged)
+            exp_err = ("transport", {})
+            self.relaxations["outcome-masked-by-failed-query"] += 1
 
         # ---------------- outcome (C03/C04) ----------------
         if exp_err is None:
@@ -650,6 +655,17 @@ class Model:
         if obs.kind != "ok" and not (obs.is_transport_error and any(not ok for _, ok, _ in decoded)):
             d.append(("outcome", f"idreq:unexpected-{obs.kind}:{obs.cls}", ""))
             self._resync_all(obs)
+            return
+        query_failed = any(not ok for f, ok, _ in decoded if f and f[:3] == (0, 255, 3) and f[4] == 2)
+        if obs.kind != "ok" and query_failed and not resp:
+            # the version query that follows the handling failed and masks what the handling ended with; no response
+            # and an untouched registry is what a too-many-nodes refusal looks like from outside
+            self.relaxations["outcome-masked-by-failed-query"] += 1
+            if after != before:
+                d.append(("idalloc", "too-many:registry-changed", f"{sorted(after ^ before)}"))
+            if not before or max(before) < 254:
+                d.append(("idalloc", "too-many:id-above-highest-free", f"max={max(before) if before else None}"))
+            self._check_registry(obs, d, "idreq")
             return
         if len(resp) != 1:
             d.append(("idalloc", "response-count", f"{len(resp)} responses"))
